@@ -181,6 +181,7 @@ func c06(r *ev.Run) {
 	c06EndToEnd(r)
 	c06HealthCheckToggled(r)
 	c06ConfigUpdateAndFlapping(r)
+	c06PolicySwitchRace(r)
 	r.Require("least_connection_sample_pairs_judged", 1000)
 	r.Require("settled_bursts_judged", 20)
 	r.Require("connections_closed_on_host_removal", 3)
@@ -836,6 +837,61 @@ func c06ConfigUpdateAndFlapping(r *ev.Run) {
 	if sutDied(r, s, map[string]interface{}{"scenario": "the only host of a tcp service removed and added in a loop under arriving connections", "flaps": flaps}) {
 		return
 	}
+	// ---- (3) the balancing policy is changed back and forth by configuration updates while connections keep arriving: every
+	// connection is served by a member, the process survives
+	if svc2, err := startTCPSvc(s, []sutc.Host{{Addr: b.Addr}}, TCPOpts{Policy: service.LoadBalancePolicy_ROUND_ROBIN}); err == nil {
+		stop2 := make(chan struct{})
+		var served2, failed2 int64
+		var wg2 sync.WaitGroup
+		for g := 0; g < 32; g++ {
+			wg2.Add(1)
+			go func() {
+				defer wg2.Done()
+				for {
+					select {
+					case <-stop2:
+						return
+					default:
+					}
+					c, err := net.DialTimeout("tcp", svc2.Addr, time.Second)
+					if err != nil {
+						time.Sleep(time.Millisecond)
+						continue
+					}
+					c.SetDeadline(time.Now().Add(2 * time.Second))
+					c.Write([]byte("x"))
+					buf := make([]byte, 1)
+					if n, _ := c.Read(buf); n == 1 {
+						atomic.AddInt64(&served2, 1)
+					} else {
+						atomic.AddInt64(&failed2, 1)
+					}
+					c.Close()
+				}
+			}()
+		}
+		wantConns2, maxSwitches := int64(100000), 30000
+		if r.Tier == "thorough" {
+			wantConns2, maxSwitches = 1000000, 300000
+		}
+		policies := []service.LoadBalancePolicy{service.LoadBalancePolicy_ROUND_ROBIN, service.LoadBalancePolicy_RANDOM, service.LoadBalancePolicy_LEAST_CONNECTION}
+		switches := 0
+		for ; switches < maxSwitches && atomic.LoadInt64(&served2)+atomic.LoadInt64(&failed2) < wantConns2 && s.Alive(); switches++ {
+			s.ConfigUpdate(svc2.Name, tcpConfigJSON(svc2.Port, TCPOpts{Policy: policies[switches%3]}))
+		}
+		close(stop2)
+		wg2.Wait()
+		if sutDied(r, s, map[string]interface{}{"scenario": "balancing policy of a tcp service switched by configuration updates under arriving connections", "switches": switches}) {
+			return
+		}
+		if f := atomic.LoadInt64(&failed2); f > 0 {
+			r.Violation("C06:connection-not-served:policy-switch", fmt.Sprintf("%d connections were not served while only the balancing policy was being changed (the host was a healthy member the whole time)", f), map[string]interface{}{"switches": switches, "served": atomic.LoadInt64(&served2)})
+		}
+		r.Count("policy_switches_under_connections", int64(switches))
+		r.Count("connections_served_while_switching_policy", atomic.LoadInt64(&served2))
+		r.Case("policy-switching")
+		s.StopProc(svc2.Name, 10*time.Second)
+	}
 	r.Count("last_host_flaps", int64(flaps))
 	r.Count("connections_served_while_flapping", atomic.LoadInt64(&served))
 	r.Count("connections_closed_while_flapping", atomic.LoadInt64(&closed))
@@ -843,4 +899,77 @@ func c06ConfigUpdateAndFlapping(r *ev.Run) {
 	s.StopProc(svc.Name, 10*time.Second)
 	r.Require("connections_served_while_flapping", 20)
 	r.Require("connections_closed_while_flapping", 1)
+	r.Require("policy_switches_under_connections", 100)
+}
+
+// c06PolicySwitchRace: the same policy switching on a race-instrumented proxy: a selection that reads the balancer while a
+// configuration update replaces it is a data race (the balancer is a two-word interface value: a torn read pairs one policy's type
+// with another's data and crashes the process - about once per thousand switches under saturated accepts, far too rare to wait for).
+func c06PolicySwitchRace(r *ev.Run) {
+	s, err := startSUT(r, true, 0, 0)
+	if err != nil {
+		r.Internal("start race sut: %v", err)
+		return
+	}
+	defer s.Close()
+	b, err := tcpsim.NewBackend(nil)
+	if err != nil {
+		r.Internal("backend: %v", err)
+		return
+	}
+	defer b.Close()
+	svc, err := startTCPSvc(s, []sutc.Host{{Addr: b.Addr}}, TCPOpts{Policy: service.LoadBalancePolicy_ROUND_ROBIN})
+	if err != nil {
+		r.Internal("%v", err)
+		return
+	}
+	stop := make(chan struct{})
+	var wg sync.WaitGroup
+	var served int64
+	for g := 0; g < 8; g++ {
+		wg.Add(1)
+		go func() {
+			defer wg.Done()
+			for {
+				select {
+				case <-stop:
+					return
+				default:
+				}
+				c, err := net.DialTimeout("tcp", svc.Addr, time.Second)
+				if err != nil {
+					time.Sleep(time.Millisecond)
+					continue
+				}
+				c.SetDeadline(time.Now().Add(2 * time.Second))
+				c.Write([]byte("x"))
+				buf := make([]byte, 1)
+				if n, _ := c.Read(buf); n == 1 {
+					atomic.AddInt64(&served, 1)
+				}
+				c.Close()
+			}
+		}()
+	}
+	policies := []service.LoadBalancePolicy{service.LoadBalancePolicy_ROUND_ROBIN, service.LoadBalancePolicy_RANDOM, service.LoadBalancePolicy_LEAST_CONNECTION}
+	n := 300
+	if r.Tier == "thorough" {
+		n = 3000
+	}
+	for i := 0; i < n && s.Alive(); i++ {
+		s.ConfigUpdate(svc.Name, tcpConfigJSON(svc.Port, TCPOpts{Policy: policies[i%3], ConnTimeout: time.Duration(1000+i) * time.Millisecond}))
+	}
+	close(stop)
+	wg.Wait()
+	s.StopProc(svc.Name, 10*time.Second)
+	if sutDied(r, s, "policy switching on the race build") {
+		return
+	}
+	for _, rr := range raceReports(s, []string{"proc/tcp/proc.go"}) {
+		r.Violation("C06:race:"+rr.Key, "data race between a selection and a configuration update that replaces the balancer / the configuration", map[string]interface{}{"report": rr.Text})
+	}
+	r.Count("policy_switches_on_the_race_build", int64(n))
+	r.Count("connections_served_on_the_race_build", atomic.LoadInt64(&served))
+	r.Case("policy-switching-race")
+	r.Require("connections_served_on_the_race_build", 100)
 }
